@@ -90,7 +90,7 @@ func c02Prop(st *CaseStats, fam int) func(t *rapid.T) {
 		sc := GenScenario(t)
 		cfg := CaseCfg{Family: fam, MaxDocs: 6, MaxIn: 3, HoldAny: true}
 		depth := 1
-		if fam == FamSmall || fam == FamMid {
+		if fam == FamSmall || fam == FamMid || fam == FamManyFields {
 			depth = rapid.SampledFrom([]int{1, 1, 2, 3}).Draw(t, "depth")
 		} else {
 			cfg.MaxIn = 2
@@ -157,4 +157,10 @@ func TestC02Mid(t *testing.T) {
 	st := NewStats("C02Mid", c02Rule)
 	defer st.Flush()
 	rapid.Check(t, c02Prop(st, FamMid))
+}
+
+func TestC02ManyFields(t *testing.T) {
+	st := NewStats("C02ManyFields", c02Rule)
+	defer st.Flush()
+	rapid.Check(t, c02Prop(st, FamManyFields))
 }
